@@ -163,7 +163,8 @@ static void file_roundtrip(const std::vector<TypedKey> &keys) {
   static const char *bw[4] = {"yes", "No", "TRUE", "false"};
   for (size_t i = 0; i < keys.size(); i++) {
     std::string k = "k" + std::to_string(i);
-    const char *sec = (i % 3 == 0) ? nullptr : (i % 3 == 1 ? "A" : "B");
+    // (the setters are given the bracketed spelling of the section for some keys, the getters below the plain one)
+    const char *sec = (i % 3 == 0) ? nullptr : (i % 3 == 1 ? (i % 4 == 1 ? "[A]" : "A") : (i % 4 == 2 ? "[B]" : "B"));
     uint64_t b = keys[i].bits;
     // every other key goes through the header's generic econf_setValue() macro (C only: through the shim)
     if (i % 2 == 1 && keys[i].type < 6) {
@@ -347,6 +348,15 @@ static void run(Src &s) {
         econf_err e2 = econf_getInt64Value(kf, "T", "v", &back);
         VF_CHECK(e0 == ECONF_SUCCESS && e1 != ECONF_SUCCESS && e2 == ECONF_SUCCESS && back == (int64_t)b, "refused-set-had-effect",
                  "set " << (int64_t)b << ", refused boolean set (rc=" << e1 << "), get: rc=" << e2 << " value " << back);
+      }
+      if (s.chance(6)) {
+        // the two spellings of a section name are the same section for every typed setter and getter
+        int64_t b1 = 0;
+        uint64_t b2 = 0;
+        econf_err e0 = econf_setInt64Value(kf, "[T]", "w", (int64_t)b), e1 = econf_getInt64Value(kf, "T", "w", &b1);
+        econf_err e2 = econf_setUInt64Value(kf, "T", "w2", b), e3 = econf_getUInt64Value(kf, "[T]", "w2", &b2);
+        VF_CHECK(e0 == ECONF_SUCCESS && e1 == ECONF_SUCCESS && b1 == (int64_t)b && e2 == ECONF_SUCCESS && e3 == ECONF_SUCCESS && b2 == b,
+                 "section-spelling", "set through '[T]' / get through 'T': rc=" << e0 << "," << e1 << " value " << b1 << "; set 'T' / get '[T]': rc=" << e2 << "," << e3 << " value " << b2 << " (stored " << b << ")");
       }
       rt_i64(kf, (int64_t)b);
       rt_u64(kf, b);
